@@ -260,14 +260,20 @@ func ruleScale(c *Ctx) {
 		n := NewNormer(c.P)
 		n.BindParams(fn, "s")
 		fw := 0
+		var alts []valCase
 		for _, ret := range returnsOf(fn) {
-			got := n.Norm(ret.Results[0]).asAtom()
 			rc := n.ReachCond(fn, nil, ret.Block())
+			for _, cs := range n.valueCases(fn, nil, ret.Results[0], 0) {
+				alts = append(alts, valCase{cs.val, cAnd(rc, cs.cond)})
+			}
+		}
+		for _, cs := range mergeCases(alts) {
+			got := cs.val.asAtom()
 			if got == "invoke:CheckSum(assert(s.scaledBarcode.wrapped,barcode.BarcodeIntCS)#0)" {
 				fw++
-				c.expectCondC(R1, "barcode.(*intCSscaledBC).CheckSum/forward-iff", ret.Pos(), rc, &Cond{Kind: CBool, Name: "assert(s.scaledBarcode.wrapped,barcode.BarcodeIntCS)#1"})
-			} else if k, ok := n.Norm(ret.Results[0]).IsConst(); !(ok && k == 0) {
-				c.Check(R1, "barcode.(*intCSscaledBC).CheckSum/return", ret.Pos(), false, "wrapped CheckSum() (or 0 when the wrapped barcode has none)", got)
+				c.expectCondC(R1, "barcode.(*intCSscaledBC).CheckSum/forward-iff", fn.Pos(), cs.cond, &Cond{Kind: CBool, Name: "assert(s.scaledBarcode.wrapped,barcode.BarcodeIntCS)#1"})
+			} else if k, ok := cs.val.IsConst(); !(ok && k == 0) {
+				c.Check(R1, "barcode.(*intCSscaledBC).CheckSum/return", fn.Pos(), false, "wrapped CheckSum() (or 0 when the wrapped barcode has none)", cs.val.String())
 			}
 		}
 		c.Check(R1, "barcode.(*intCSscaledBC).CheckSum/forwards", fn.Pos(), fw == 1, "one forwarding return", fmt.Sprint(fw))
